@@ -338,7 +338,16 @@ let rec dec_host (s : string) : hostval =
         HSlice (List.map dec_host (List.filter (fun p -> ty p = ty p0 && p.[0] <> 'N') parts)) end
     else HSlice (List.map dec_host parts)
   | 'M' -> HMapIface (List.map (fun p -> match split_top p '=' with [k; v] -> (str_of_string (unhex k), dec_host v) | _ -> failwith "bad map") (split_top (inner s 2) ','))
-  | 'O' -> HMapOther ((if s.[1] = '0' then N0 else n_of_int 1), List.map (fun p -> match split_top p '=' with [k; v] -> (dec_host k, dec_host v) | _ -> failwith "bad map") (split_top (inner s 3) ','))
+  | 'O' ->
+    let pairs = List.map (fun p -> match split_top p '=' with [k; v] -> (dec_host k, dec_host v) | _ -> failwith "bad map") (split_top (inner s 3) ',') in
+    if s.[1] = '0' then
+      (* map[string]string: fmt.Sprint of key and value *)
+      HMapIface (List.map (fun (k, v) -> match k, v with
+                            | HString ks, HString vs -> (ks, HString vs)
+                            | _ -> failwith "O0 expects string keys and values") pairs)
+    else
+      (* map[int]interface{} keyed by position *)
+      HMapOther (n_of_int 1, List.mapi (fun i (_, v) -> (HInt (N0, z_of_string (string_of_int i)), v)) pairs)
   | 'R' -> HStruct (List.map (fun p -> match split_top p '=' with [k; v] -> (str_of_string (unhex k), dec_host v) | _ -> failwith "bad struct") (split_top (inner s 2) ','))
   | 'P' -> HPtr (dec_host (inner s 2))
   | 'Q' -> HNilPtr
